@@ -699,6 +699,38 @@ func (g *histGen) genGroupEpisode() []*blockSpec {
 	return []*blockSpec{b1, b2}
 }
 
+// genXVMEpisode deploys the WASM contract with state functions and invokes it in two or three later blocks, so that a
+// replica restarted between the invocations has executed fewer of them in its process than one that ran through (gas,
+// fees and receipts must not depend on that).
+func (g *histGen) genXVMEpisode() []*blockSpec {
+	t, w := g.t, g.w
+	ws := loadWasm()
+	if len(ws) < 2 || !xvmAllowed(g.replays*8) {
+		return []*blockSpec{g.genBlock(8)}
+	}
+	from := sim.Outsiders[rapid.IntRange(0, 1).Draw(t, "xvmEpFrom")]
+	mk := func(txs ...*txSpec) *blockSpec {
+		w.TS += 10
+		return &blockSpec{txs: txs, ts: w.TS}
+	}
+	nonce := w.Nonces.Next(from)
+	addr := wasmContractAddress(from.Addr, nonce)
+	g.deployed = append(g.deployed, addr)
+	out := []*blockSpec{mk(&txSpec{kind: "xvm", tx: sim.DeployTx(from, nonce, w.TS+1, ws[1]), desc: "episode: xvm deploy ledger_test_gc"})}
+	for b := rapid.IntRange(2, 3).Draw(t, "xvmEpBlocks"); b > 0; b-- {
+		var txs []*txSpec
+		for i := rapid.IntRange(1, 3).Draw(t, "xvmEpCalls"); i > 0; i-- {
+			caller := g.actor("xvmEpCaller")
+			k := rapid.SampledFrom([]string{"alice", "bob", "carol"}).Draw(t, "xk")
+			v := rapid.SampledFrom([]string{"111", "2", "33333"}).Draw(t, "xv")
+			txs = append(txs, &txSpec{kind: "xvm", tx: sim.InvokeTx(caller, w.Nonces.Next(caller), w.TS+1, pb.TransactionData_XVM, addr, "state_test_set", pb.Bytes([]byte(k)), pb.Bytes([]byte(v))), desc: fmt.Sprintf("episode: xvm state_test_set(%q,%q) on %s by %s", k, v, addr.String()[:10], short8(caller))})
+		}
+		out = append(out, mk(txs...))
+	}
+	g.kinds["xvm-episode"]++
+	return out
+}
+
 func intsUpTo(n int) []int {
 	out := make([]int, n)
 	for i := range out {
